@@ -3,7 +3,7 @@
    slot stands for. *)
 From QV Require Import Base.ListX Model.MsgWriter Spec.NameRepr Proofs.NameWireP Proofs.MsgWriterP
      Proofs.MsgWriterScanP Proofs.MsgWriterNameP Proofs.MsgWriterInvP Proofs.MsgWriterClosP
-     Proofs.MsgWriterScanSP Proofs.MsgWriterNameSP.
+     Proofs.MsgWriterScanSP Proofs.MsgWriterNameSP Proofs.MsgWriterLayP.
 
 Local Open Scope nat_scope.
 
@@ -210,13 +210,32 @@ Definition comps_post (h : nat) (cts : list ctype) (rd : bytes) (names : list wn
     exists L', grew w w' L L' /\ NInv w' h L' /\ w_qname w' = w_qname w /\ w_mro w' = w_mro w /\
       anch (w_buf w') (w_cursor w') L' (w_mrn w') (lastn (rd_names cts rd) gr) /\
       vec_ok (w_buf w') (w_cursor w') L' v' (names ++ rd_names cts rd) /\ vsome v' = vsome v /\
-      w_cursor w' <= w_cursor w + length rd /\ ext (w_cursor w) w w'
+      w_cursor w' <= w_cursor w + length rd /\ ext (w_cursor w) w w' /\
+      exists parts, parts_at (w_buf w') L' parts (w_cursor w) (w_cursor w') /\
+        map part_abs parts = rd_parts cts rd /\ Forall (part_cp (exactf (w_mode w))) parts /\
+        forall s, L' s <-> L s \/ In s (parts_starts parts)
   | Err (e, w') => (e = Truncation /\ w_avail w < w_cursor w + length rd) \/ (e = InvalidRdata /\ cts <> [])
   | Panic => False
   end.
 
 Lemma wf_bytes_skipn k (rd : bytes) : wf_bytes rd -> wf_bytes (skipn k rd).
 Proof. unfold wf_bytes. intros H. rewrite Forall_forall in *. intros x Hx. apply H. eapply In_skipn; eauto. Qed.
+
+(* a chunk that is the plain wire form cannot also be read as labels + pointer *)
+Lemma shape_plain_unique cp n b L pos e k pp : wf_name n -> shape_at cp n b L pos e (Some (k, pp)) ->
+  slice b pos e = nm_wire n -> False.
+Proof.
+  intros [Hwf _] [Hk [Hs [_ [_ [_ [Hpm _]]]]]] Hp. rewrite Hp in Hs.
+  destruct (ptr_word_bytes pp Hpm) as [hi [lo [Eb [Ehi _]]]]. rewrite Eb in Hs.
+  unfold nm_wire in Hs. rewrite <- (firstn_skipn k n) in Hs at 1. rewrite nm_lwire_app, <- app_assoc in Hs.
+  apply app_inv_head in Hs.
+  destruct (skipn k n) as [|l r] eqn:E.
+  - assert (length (skipn k n) = 0) by (rewrite E; reflexivity). rewrite skipn_length in H. lia.
+  - assert (Hin : In l n) by (apply (In_skipn k); rewrite E; left; reflexivity).
+    rewrite Forall_forall in Hwf. destruct (Hwf l Hin) as [_ H63].
+    rewrite nm_lwire_cons in Hs. simpl in Hs. inversion Hs; subst hi.
+    rewrite small_not_pointer in Ehi by lia. discriminate.
+Qed.
 
 Lemma comps_L h : forall cts rd names gr v w L, NInv w h L -> wf_bytes rd ->
   anch (w_buf w) (w_cursor w) L (w_mrn w) gr -> vec_ok (w_buf w) (w_cursor w) L v names ->
@@ -226,17 +245,29 @@ Proof.
   - simpl. destruct (length rd =? 0) eqn:E0.
     + simpl. exists L. rewrite app_nil_r. split; [apply grew_refl|]. split; [exact Hi|].
       split; [reflexivity|]. split; [reflexivity|]. split; [exact Ha|]. split; [exact Hv|].
-      split; [reflexivity|]. split; [lia|]. apply ext_refl. apply Hi.
+      split; [reflexivity|]. split; [lia|]. split; [apply ext_refl; apply Hi|].
+      exists []. simpl. rewrite E0. split; [reflexivity|]. split; [reflexivity|]. split; [constructor|].
+      intros s; tauto.
     + destruct (try_push rd w) as [[u w1]|[e w1]|] eqn:E; simpl.
       * destruct (try_push_ext (w_cursor w) _ _ _ _ E (le_n _)) as [X [[S1 [S2 [S3 S4]]] [Hcur [Hsl Hag]]]].
         exists L. rewrite app_nil_r. split; [apply grew_refl|]. split; [eapply NInv_try_push; eauto|].
         split; auto. split; auto. split; [rewrite S3; eapply anch_mono; eauto; lia|].
-        split; [eapply vec_mono; eauto; lia|]. split; auto. split; [lia|exact X].
+        split; [eapply vec_mono; eauto; lia|]. split; auto. split; [lia|]. split; [exact X|].
+        exists [LPRaw (w_cursor w) rd]. simpl. rewrite E0.
+        split; [split; auto; split; auto; split; [rewrite <- Hcur; exact Hsl|split; lia]|].
+        split; [reflexivity|]. split; [repeat constructor|]. intros s; tauto.
       * left. apply try_push_err in E as E'. destruct E' as [-> ->]. split; auto.
         eapply try_push_err_size; eauto. apply Hi.
       * destruct Hi as [[N1 N2] _ _ _ _ _ _ _]. eapply try_push_no_panic; eauto.
   - assert (Hstep : forall (wr : wname -> writer -> M (option prior)),
-               (forall n, wf_name n -> exists cp, name_postL cp h n w L (wr n w)) ->
+               (forall n, wf_name n -> name_postL (exactf (w_mode w)) h n w L (wr n w)) ->
+               (is_comp ct = false -> forall n pr w1, wr n w = Ok (pr, w1) ->
+                  slice (w_buf w1) (w_cursor w) (w_cursor w1) = nm_wire n) ->
+               rd_parts (ct :: rest) rd =
+                 match parse_uncompressed_name rd false with
+                 | Ok (nm, len) => APName (labels_of_name nm) (is_comp ct) :: rd_parts rest (skipn len rd)
+                 | _ => []
+                 end ->
                rd_names (ct :: rest) rd =
                  match parse_uncompressed_name rd false with
                  | Ok (nm, len) => labels_of_name nm :: rd_names rest (skipn len rd)
@@ -252,10 +283,10 @@ Proof.
                  | Err _ => Err (InvalidRdata, w)
                  | Panic => Panic
                  end).
-    { intros wr Hwr Hrn. unfold comps_post at 1. rewrite Hrn.
+    { intros wr Hwr Hplain Hrp Hrn. unfold comps_post at 1. rewrite Hrn, Hrp.
       destruct (parse_uncompressed_name rd false) as [[nm len]|e|] eqn:Ep.
       - destruct (parse_unc_name rd nm len Hwf Ep) as [Hwn [Hlen Hle]].
-        destruct (Hwr _ Hwn) as [cp Hpost]. cbn zeta.
+        pose proof (Hwr _ Hwn) as Hpost. cbn zeta.
         destruct (wr (labels_of_name nm) w) as [[pr w1]|[e w1]|] eqn:Ew; simpl.
         + destruct Hpost as [W [Hsz [_ [L1 [G1 [Hi1 [HpL HT1]]]]]]].
           pose proof W as [X [[S1 [S2 [S3 S4]]] _]].
@@ -274,16 +305,35 @@ Proof.
           unfold comps_post in IH.
           destruct (write_components rest (skipn len rd) (hv_push v pr) (set_mrn w1 pr)) as [[v' w3]|[e w3]|];
             auto.
-          * destruct IH as [L3 [G3 [Hi3 [Q3 [O3 [A3 [V3 [Vs [Hc3 X3]]]]]]]]].
-            simpl in Q3, O3, Hc3, X3, G3.
+          * destruct IH as [L3 [G3 [Hi3 [Q3 [O3 [A3 [V3 [Vs [Hc3 [X3 [parts3 [P3 [Pa3 [Pc3 Pt3]]]]]]]]]]]]]].
+            simpl in Q3, O3, Hc3, X3, G3, P3, Pc3.
             rewrite skipn_length in Hc3.
             exists L3. split.
             { eapply (grew_trans w w1 w3); eauto; [apply X|]. destruct X3; simpl in *; lia. }
             split; auto. split; [congruence|]. split; [congruence|].
             split; [exact A3|]. split; [rewrite <- app_assoc in V3; exact V3|].
             split; [rewrite Vs; apply vsome_push|]. split; [lia|].
-            eapply ext_trans; [exact X|].
-            destruct X3. constructor; simpl in *; auto. eapply agree_le; eauto. apply X.
+            split.
+            { eapply ext_trans; [exact X|].
+              destruct X3. constructor; simpl in *; auto. eapply agree_le; eauto. apply X. }
+            destruct HT1 as [sh [Hsh Ht1]].
+            assert (Hlt : w_cursor w < w_cursor w1).
+            { destruct W as [_ [_ [Hem _]]]. pose proof (nm_wire_length (labels_of_name nm)). destruct Hem; lia. }
+            pose proof (x_agree _ _ _ X3) as Ag3. simpl in Ag3.
+            pose proof (x_cur _ _ _ X3) as Cu3. simpl in Cu3.
+            assert (Hsh' : is_comp ct = false -> sh = None).
+            { intros Hc. destruct sh as [[k pp]|]; auto. exfalso.
+              eapply shape_plain_unique; eauto. }
+            exists (LPName (mkNC (w_cursor w) (w_cursor w1) (labels_of_name nm) (exactf (w_mode w)) sh) (is_comp ct)
+                    :: parts3).
+            split.
+            { simpl. split; [reflexivity|]. split; [|split; [exact Hsh'|split; [lia|exact P3]]].
+              eapply chunk_mono; [apply G3|].
+              eapply (chunk_append (w_buf w1) (w_cursor w1)); [exact Ag3|simpl; lia|].
+              split; [simpl; lia|]. simpl. eapply shape_mono; [apply G1|exact Hsh]. }
+            split; [simpl; rewrite Pa3; reflexivity|].
+            split; [constructor; [reflexivity|rewrite (x_mode _ _ _ X) in Pc3; exact Pc3]|].
+            intros s. rewrite Pt3, Ht1. simpl. unfold chunk_starts. simpl. rewrite in_app_iff. tauto.
           * destruct IH as [[-> Hs]|[-> Hs]]; [left|right; split; auto; discriminate].
             split; auto. simpl in Hs. rewrite skipn_length in Hs. rewrite (x_av _ _ _ X) in Hs. lia.
         + destruct Hpost as [-> [X [Sd Hs]]]. left. split; auto. lia.
@@ -291,13 +341,16 @@ Proof.
       - right. split; auto. discriminate.
       - destruct (parse_uncompressed_total rd false) as [Hp _]. congruence. }
     destruct ct as [| |k].
-    + apply (Hstep write_unhinted_name); [|reflexivity].
-      intros n Hwn. exists (exactf (w_mode w)). apply write_unhinted_L; auto.
-    + apply (Hstep write_uncompressed_name); [|reflexivity].
-      intros n Hwn. exists true. apply write_uncompressed_L; auto.
+    + apply (Hstep write_unhinted_name); [|discriminate|reflexivity|reflexivity].
+      intros n Hwn. apply write_unhinted_L; auto.
+    + apply (Hstep write_uncompressed_name); [| |reflexivity|reflexivity].
+      * intros n Hwn. apply name_postL_weaken. apply write_uncompressed_L; auto.
+      * intros _ n pr w1 E. eapply uncompressed_plain; eauto.
     + simpl. destruct (length rd <? k) eqn:Ek; [right; split; auto; discriminate|].
       assert (Hrn : rd_names (CtFixed k :: rest) rd = rd_names rest (skipn k rd)) by (simpl; rewrite Ek; reflexivity).
-      unfold comps_post. rewrite Hrn.
+      assert (Hrp : rd_parts (CtFixed k :: rest) rd = APRaw (firstn k rd) :: rd_parts rest (skipn k rd))
+        by (simpl; rewrite Ek; reflexivity).
+      unfold comps_post. rewrite Hrn, Hrp.
       apply Nat.ltb_ge in Ek.
       destruct (try_push (firstn k rd) w) as [[u w1]|[e w1]|] eqn:E; simpl.
       * destruct (try_push_ext (w_cursor w) _ _ _ _ E (le_n _)) as [X [[S1 [S2 [S3 S4]]] [Hcur [Hsl Hag]]]].
@@ -309,14 +362,24 @@ Proof.
         specialize (IH (skipn k rd) names gr v w1 L Hi1 (wf_bytes_skipn _ _ Hwf) A1 V1).
         unfold comps_post in IH.
         destruct (write_components rest (skipn k rd) v w1) as [[v' w3]|[e w3]|]; auto.
-        -- destruct IH as [L3 [G3 [Hi3 [Q3 [O3 [A3 [V3 [Vs [Hc3 X3]]]]]]]]].
+        -- destruct IH as [L3 [G3 [Hi3 [Q3 [O3 [A3 [V3 [Vs [Hc3 [X3 [parts3 [P3 [Pa3 [Pc3 Pt3]]]]]]]]]]]]]].
            rewrite skipn_length in Hc3.
            exists L3. split.
            { apply (grew_trans w w1 w3 L L L3); [apply X|apply X3|apply grew_refl|exact G3]. }
            split; [exact Hi3|]. split; [congruence|]. split; [congruence|].
            split; [exact A3|]. split; [exact V3|]. split; [exact Vs|]. split; [lia|].
-           eapply ext_trans; [exact X|].
-           destruct X3. constructor; auto. eapply agree_le; eauto. apply X.
+           split.
+           { eapply ext_trans; [exact X|].
+             destruct X3. constructor; auto. eapply agree_le; eauto. apply X. }
+           exists (LPRaw (w_cursor w) (firstn k rd) :: parts3).
+           split.
+           { simpl. rewrite firstn_length. split; auto. split; auto. split.
+             - rewrite (agree_slice (w_cursor w1) (w_buf w1) (w_buf w3) _ _ (x_agree _ _ _ X3)) by lia.
+               rewrite <- Hcur. exact Hsl.
+             - pose proof (x_cur _ _ _ X3). split; [lia|]. rewrite <- Hcur. exact P3. }
+           split; [simpl; rewrite Pa3; reflexivity|].
+           split; [constructor; [exact I|rewrite (x_mode _ _ _ X) in Pc3; exact Pc3]|].
+           intros s. rewrite Pt3. simpl. tauto.
         -- destruct IH as [[-> Hs]|[-> Hs]]; [left|right; split; auto; discriminate].
            split; auto. rewrite skipn_length in Hs. rewrite (x_av _ _ _ X) in Hs. lia.
       * left. apply try_push_err in E as E'. destruct E' as [-> ->]. split; auto.
@@ -384,7 +447,29 @@ Qed.
 
 (* ---------------------------------------------------------------- add_rr *)
 
-Definition rr_post (owner : wname) (cts : list ctype) (rd : bytes) (names : list wname)
+Definition rr_desc (r : lrr) (owner : wname) (cp : bool) (ty cl ttl : N) (cts : list ctype) (rd : bytes) : Prop :=
+  nc_name (lr_owner r) = owner /\ nc_cp (lr_owner r) = cp /\ lr_ty r = ty /\ lr_cl r = cl /\ lr_ttl r = ttl /\
+  map part_abs (lr_parts r) = rd_parts cts rd /\ Forall (part_cp cp) (lr_parts r).
+
+Lemma push3 a1 a2 a3 w u2 w2 u3 w3 u4 w4 : try_push a1 w = Ok (u2, w2) -> try_push a2 w2 = Ok (u3, w3) ->
+  try_push a3 w3 = Ok (u4, w4) ->
+  slice (w_buf w4) (w_cursor w) (w_cursor w4) = a1 ++ a2 ++ a3 /\
+  w_cursor w4 = w_cursor w + length a1 + length a2 + length a3.
+Proof.
+  intros E2 E3 E4.
+  destruct (try_push_ext (w_cursor w) _ _ _ _ E2 (le_n _)) as [X2 [_ [C2 [S2 A2]]]].
+  destruct (try_push_ext (w_cursor w2) _ _ _ _ E3 (le_n _)) as [X3 [_ [C3 [S3 A3]]]].
+  destruct (try_push_ext (w_cursor w3) _ _ _ _ E4 (le_n _)) as [X4 [_ [C4 [S4 A4]]]].
+  split; [|lia].
+  rewrite (slice_app _ (w_cursor w) (w_cursor w2)) by lia.
+  rewrite (slice_app _ (w_cursor w2) (w_cursor w3)) by lia.
+  rewrite S4. f_equal; [|f_equal].
+  - rewrite (agree_slice (w_cursor w3) (w_buf w3) (w_buf w4) _ _ A4) by lia.
+    rewrite (agree_slice (w_cursor w2) (w_buf w2) (w_buf w3) _ _ A3) by lia. exact S2.
+  - rewrite (agree_slice (w_cursor w3) (w_buf w3) (w_buf w4) _ _ A4) by lia. exact S3.
+Qed.
+
+Definition rr_post (owner : wname) (ty cl ttl : N) (cts : list ctype) (rd : bytes) (names : list wname)
            (gq gr : option wname) (v : option hvec) (w : writer) (L : nat -> Prop)
            (r : M (option hvec)) : Prop :=
   match r with
@@ -392,7 +477,10 @@ Definition rr_post (owner : wname) (cts : list ctype) (rd : bytes) (names : list
     exists L', grew w w' L L' /\ NInv w' (length (w_buf w')) L' /\
       anch3 w' L' gq (Some owner) (lastn (rd_names cts rd) gr) /\
       vec_ok (w_buf w') (w_cursor w') L' v' (names ++ rd_names cts rd) /\ vsome v' = vsome v /\
-      w_cursor w' <= w_cursor w + length (nm_wire owner) + 10 + length rd /\ w_qname w' = w_qname w
+      w_cursor w' <= w_cursor w + length (nm_wire owner) + 10 + length rd /\ w_qname w' = w_qname w /\
+      exists r, rr_at (w_buf w') L' r /\ nc_pos (lr_owner r) = w_cursor w /\ lr_end r = w_cursor w' /\
+                rr_desc r owner (exactf (w_mode w)) ty cl ttl cts rd /\
+                forall s, L' s <-> L s \/ In s (rr_starts r)
   | Err (e, w') =>
     (e = Truncation /\ w_avail w < w_cursor w + length (nm_wire owner) + 10 + length rd) \/
     (e = InvalidRdata /\ cts <> [])
@@ -405,7 +493,7 @@ Proof. reflexivity. Qed.
 Lemma add_rr_L h owner ty cl ttl rd v w L names gq go gr :
   NInv w (length (w_buf w)) L -> anch3 w L gq go gr -> vec_ok (w_buf w) (w_cursor w) L v names ->
   wf_name owner -> wf_bytes rd -> hint_contract h owner w -> hint_in h w L ->
-  rr_post owner (component_types cl ty) rd names gq gr v w L (add_rr h owner ty cl ttl rd v w).
+  rr_post owner ty cl ttl (component_types cl ty) rd names gq gr v w L (add_rr h owner ty cl ttl rd v w).
 Proof.
   intros Hi A V Hwf Hrd Hh HhL. unfold add_rr.
   pose proof (write_hinted_L _ h owner w L Hi Hwf Hh HhL) as P1.
@@ -422,11 +510,15 @@ Proof.
   { destruct (anch3_ext _ _ _ L1 _ _ _ A X Sd (proj1 G1)) as [B1 [B2 B3]]. split; [exact B1|]. split; [exact Apr|exact B3]. }
   assert (V1 : vec_ok (w_buf (set_mro w1 pr)) (w_cursor (set_mro w1 pr)) L1 v names).
   { eapply vec_mono; eauto; [apply X|apply X|apply G1]. }
+  destruct HT1 as [sh [Hsh Ht1]].
+  assert (Hlt1 : w_cursor w < w_cursor w1).
+  { destruct W as [_ [_ [Hem _]]]. pose proof (nm_wire_length owner). destruct Hem; lia. }
+  assert (Hm1 : w_mode (set_mro w1 pr) = w_mode w) by (simpl; apply X).
   assert (Hc1 : w_cursor (set_mro w1 pr) = w_cursor w1) by reflexivity.
   assert (Hav1 : w_avail (set_mro w1 pr) = w_avail w1) by reflexivity.
   assert (Hl1 : w_buf (set_mro w1 pr) = w_buf w1) by reflexivity.
   assert (Hq1 : w_qname (set_mro w1 pr) = w_qname w) by (simpl; apply Sd).
-  generalize dependent (set_mro w1 pr). intros w1' Hi1' A1 V1 Hc1 Hav1 Hl1 Hq1.
+  generalize dependent (set_mro w1 pr). intros w1' Hi1' A1 V1 Hm1 Hc1 Hav1 Hl1 Hq1.
   pose proof (x_av _ _ _ X) as Hav0. pose proof (x_cur _ _ _ X) as Hcur0.
   destruct (try_push_u16 ty w1') as [[u2 w2]|[e w2]|] eqn:E2; cbn [bind].
   3:{ destruct Hi1' as [[N1 N2] _ _ _ _ _ _ _]. eapply try_push_no_panic; eauto. }
@@ -447,6 +539,7 @@ Proof.
       unfold be16 in Hc2, Hc3. unfold be32 in K. simpl length in K, Hc2, Hc3.
       rewrite (x_av _ _ _ X3), (x_av _ _ _ X2) in K. lia. }
   destruct (push_step _ _ _ _ _ _ _ _ _ _ _ E4 Hi3 A3 V3) as [Hi4 [A4 [V4 [Hc4 [X4 Q4]]]]].
+  destruct (push3 _ _ _ _ _ _ _ _ _ _ E2 E3 E4) as [Hfix _].
   unfold be16 in Hc2, Hc3. unfold be32 in Hc4. simpl length in Hc2, Hc3, Hc4.
   assert (Hav4 : w_avail w4 = w_avail w1').
   { rewrite (x_av _ _ _ X4), (x_av _ _ _ X3), (x_av _ _ _ X2). reflexivity. }
@@ -479,8 +572,8 @@ Proof.
   destruct (write_components (component_types cl ty) rd v w5) as [[v' w6]|[e w6]|]; cbn [bind]; auto.
   2:{ destruct P6 as [[-> Hs]|[-> Hs]]; [left|right; auto]. split; auto.
       unfold w5 in Hs; simpl in Hs. lia. }
-  destruct P6 as [L6 [G6 [Hi6 [Q6 [O6 [A6 [V6 [Vs [Hc6 X6]]]]]]]]].
-  unfold w5 in Q6, O6, Hc6, X6; simpl in Q6, O6, Hc6, X6. fold w5 in X6.
+  destruct P6 as [L6 [G6 [Hi6 [Q6 [O6 [A6 [V6 [Vs [Hc6 [X6 [parts [P6 [Pa6 [Pc6 Pt6]]]]]]]]]]]]]].
+  unfold w5 in Q6, O6, Hc6, X6, P6, Pc6; simpl in Q6, O6, Hc6, X6, P6, Pc6. fold w5 in X6.
   pose proof (x_cur _ _ _ X6) as Hcur6. unfold w5 in Hcur6; simpl in Hcur6.
   destruct (w_cursor w6 <? c4 + 2) eqn:Ec; [apply Nat.ltb_lt in Ec; lia|].
   pose proof (ni_nb _ _ _ Hi6) as [N61 N62].
@@ -502,7 +595,51 @@ Proof.
     - eapply anch_mono; eauto. apply G6.
     - eapply anch_mono; eauto. apply G6. }
   split; [simpl; eapply vec_transfer; eauto|]. split; auto. split; [simpl; lia|].
-  simpl. congruence.
+  split; [simpl; congruence|].
+  (* the layout of the record *)
+  pose proof (x_agree _ _ _ X6) as Ag6. unfold w5 in Ag6; simpl in Ag6.
+  assert (Ag14 : agree (w_cursor w1) (w_buf w1) (w_buf w4)).
+  { rewrite <- Hl1. rewrite <- Hc1.
+    eapply agree_trans; [apply X2|]. eapply agree_trans; [eapply agree_le; [apply X3|lia]|].
+    eapply agree_le; [apply X4|lia]. }
+  assert (Ag16 : agree (w_cursor w1) (w_buf w1) (w_buf w6)).
+  { eapply agree_trans; [exact Ag14|]. eapply agree_le; [exact Ag6|lia]. }
+  assert (Hc41 : c4 = w_cursor w1 + 8) by lia.
+  set (och := mkNC (w_cursor w) (w_cursor w1) owner (exactf (w_mode w)) sh).
+  assert (Och6 : chunk_ok (w_buf w6) L6 och).
+  { eapply chunk_mono; [apply G6|]. eapply (chunk_append (w_buf w1) (w_cursor w1)); [exact Ag16|simpl; lia|].
+    split; [simpl; lia|]. simpl. eapply shape_mono; [apply G1|exact Hsh]. }
+  exists (mkLR och ty cl ttl parts (w_cursor w6)).
+  assert (Hle6 : w_cursor w6 <= length (w_buf w6)) by lia.
+  split.
+  { unfold rr_at; simpl.
+    split.
+    { eapply (chunk_transfer (w_buf w6) header_size (w_cursor w6) c4 L6); eauto.
+      - simpl. unfold okr. pose proof (ni_lo _ _ _ Hi). lia.
+      - simpl. lia. }
+    split.
+    { unfold rr_fixed. cbn [lr_ty lr_cl lr_ttl lr_end lr_owner nc_end och].
+      replace (w_cursor w1 + 10) with (w_cursor w1 + 8 + 2) by lia.
+      rewrite (slice_app _ (w_cursor w1) (w_cursor w1 + 8)) by lia.
+      match goal with |- _ = ?a ++ ?b ++ ?c ++ ?d =>
+        replace (a ++ b ++ c ++ d) with ((a ++ b ++ c) ++ d) by (rewrite <- !app_assoc; reflexivity) end.
+      f_equal.
+      - rewrite (ragree_slice header_size (w_cursor w6) c4 (w_buf w6) b7 _ _ R7); try lia.
+        + rewrite (agree_slice (c4 + 2) (w_buf w4) (w_buf w6) _ _ Ag6) by lia.
+          rewrite <- Hc41. rewrite <- Hc1. exact Hfix.
+        + unfold okr. pose proof (ni_lo _ _ _ Hi). lia.
+      - rewrite <- Hc41.
+        pose proof (buf_write_data _ _ _ _ Hb7) as Hd7. unfold be16 in Hd7 at 1. simpl length in Hd7.
+        rewrite Hd7. f_equal. f_equal. f_equal. lia. }
+    split; [lia|].
+    replace (w_cursor w1 + 10) with (c4 + 2) by lia.
+    eapply (parts_transfer (w_buf w6) header_size (w_cursor w6) c4 L6); eauto.
+    unfold okr. pose proof (ni_lo _ _ _ Hi). lia. }
+  split; [reflexivity|]. split; [reflexivity|].
+  split.
+  { unfold rr_desc; simpl. repeat split; auto. rewrite <- Hm1.
+    rewrite <- (x_mode _ _ _ X2), <- (x_mode _ _ _ X3), <- (x_mode _ _ _ X4). exact Pc6. }
+  intros s. rewrite Pt6, Ht1. unfold rr_starts, chunk_starts. simpl. rewrite in_app_iff. tauto.
 Qed.
 
 (* ---------------------------------------------------------------- add_rrset *)
@@ -522,7 +659,7 @@ Proof.
   eapply stands_hinted; eauto. apply name_eq_refl.
 Qed.
 
-Definition rrset_post (owner : wname) (cts : list ctype) (rds : list bytes) (names : list wname)
+Definition rrset_post (owner : wname) (ty cl ttl : N) (cts : list ctype) (rds : list bytes) (names : list wname)
            (gq go gr : option wname) (v : option hvec) (k : nat) (w : writer) (L : nat -> Prop)
            (r : M (option hvec * nat)) : Prop :=
   match r with
@@ -531,7 +668,10 @@ Definition rrset_post (owner : wname) (cts : list ctype) (rds : list bytes) (nam
       anch3 w' L' gq (match rds with [] => go | _ => Some owner end) (lastn (rds_names cts rds) gr) /\
       vec_ok (w_buf w') (w_cursor w') L' v' (names ++ rds_names cts rds) /\ vsome v' = vsome v /\
       k' = k + length rds /\ w_cursor w' <= w_cursor w + rds_size owner rds /\ w_cursor w <= w_cursor w' /\
-      w_qname w' = w_qname w
+      w_qname w' = w_qname w /\
+      exists rs, rrs_at (w_buf w') L' rs (w_cursor w) (w_cursor w') /\
+                 Forall2 (fun r rd => rr_desc r owner (exactf (w_mode w)) ty cl ttl cts rd) rs rds /\
+                 forall s, L' s <-> L s \/ In s (rrs_starts rs)
   | Err (e, w') =>
     (e = Truncation /\ w_avail w < w_cursor w + rds_size owner rds) \/ (e = InvalidRdata /\ cts <> [])
   | Panic => False
@@ -540,32 +680,43 @@ Definition rrset_post (owner : wname) (cts : list ctype) (rds : list bytes) (nam
 Lemma rrset_L owner ty cl ttl gq : forall rds h v k w L names go gr,
   NInv w (length (w_buf w)) L -> anch3 w L gq go gr -> vec_ok (w_buf w) (w_cursor w) L v names ->
   wf_name owner -> Forall wf_bytes rds -> hint_contract h owner w -> hint_in h w L ->
-  rrset_post owner (component_types cl ty) rds names gq go gr v k w L
+  rrset_post owner ty cl ttl (component_types cl ty) rds names gq go gr v k w L
              (add_rrset_loop h owner ty cl ttl rds v k w).
 Proof.
   induction rds as [|rd rest IH]; intros h v k w L names go gr Hi A V Hwf Hrds Hh HhL.
   - simpl. exists L. rewrite app_nil_r. split; [apply grew_refl|]. split; [exact Hi|].
-    split; [exact A|]. split; [exact V|]. split; [reflexivity|]. split; [lia|]. split; [lia|]. split; [lia|reflexivity].
+    split; [exact A|]. split; [exact V|]. split; [reflexivity|]. split; [lia|]. split; [lia|]. split; [lia|].
+    split; [reflexivity|]. exists []. simpl. split; [reflexivity|]. split; [constructor|]. intros s; tauto.
   - inversion Hrds as [|? ? Hrd Hrest]; subst. cbn [add_rrset_loop].
     pose proof (add_rr_L h owner ty cl ttl rd v w L names gq go gr Hi A V Hwf Hrd Hh HhL) as P.
     assert (Hpre : pre (w_cursor w) w) by (split; [lia|apply Hi]).
     pose proof (frame_add_rr (w_cursor w) h owner ty cl ttl rd v w Hpre) as F.
     destruct (add_rr h owner ty cl ttl rd v w) as [[v1 w1]|[e w1]|]; simpl in P, F; cbn [bind]; auto.
     2:{ simpl. destruct P as [[-> Hs]|[-> Hs]]; [left|right; auto]. split; auto. lia. }
-    destruct P as [L1 [G1 [Hi1 [A1 [V1 [Vs1 [Hc1 Hq1]]]]]]].
+    destruct P as [L1 [G1 [Hi1 [A1 [V1 [Vs1 [Hc1 [Hq1 [r1 [R1 [Rp1 [Re1 [Rd1 Rt1]]]]]]]]]]]]].
+    assert (Hpre1 : pre (w_cursor w1) w1) by (split; [lia|apply Hi1]).
+    pose proof (frame_rrset_loop (w_cursor w1) rest HOwner owner ty cl ttl v1 (S k) w1 Hpre1) as F2.
     specialize (IH HOwner v1 (S k) w1 L1 (names ++ rd_names (component_types cl ty) rd) (Some owner)
                    (lastn (rd_names (component_types cl ty) rd) gr) Hi1 A1 V1 Hwf Hrest
                    (owner_hint_ok _ _ _ _ _ _ Hi1 A1) I).
     unfold rrset_post in IH |- *.
     destruct (add_rrset_loop HOwner owner ty cl ttl rest v1 (S k) w1) as [[[v2 k2] w2]|[e w2]|]; auto.
-    + destruct IH as [L2 [G2 [Hi2 [A2 [V2 [Vs2 [Hk [Hc2 [Hm2 Hq2]]]]]]]]].
+    + destruct IH as [L2 [G2 [Hi2 [A2 [V2 [Vs2 [Hk [Hc2 [Hm2 [Hq2 [rs2 [R2 [Rd2 Rt2]]]]]]]]]]]]].
+      simpl in F2.
       pose proof (x_cur _ _ _ F) as Hm1.
       exists L2. split.
       { apply (grew_trans w w1 w2 L L1 L2); auto. }
       split; [exact Hi2|]. split.
       { cbn [rds_names]. rewrite lastn_app. destruct rest; exact A2. }
       split; [cbn [rds_names]; rewrite app_assoc; exact V2|]. split; [congruence|].
-      split; [simpl; lia|]. split; [simpl; lia|]. split; [lia|congruence].
+      split; [simpl; lia|]. split; [simpl; lia|]. split; [lia|]. split; [congruence|].
+      exists (r1 :: rs2). split.
+      { simpl. split; auto. split.
+        - eapply rr_mono; [apply G2|]. eapply (rr_append (w_buf w1) (w_cursor w1)); [apply F2|lia|exact R1].
+        - rewrite Re1. split; [lia|exact R2]. }
+      split.
+      { constructor; auto. rewrite <- (x_mode _ _ _ F). exact Rd2. }
+      intros s. rewrite Rt2, Rt1. unfold rrs_starts. simpl. rewrite in_app_iff. tauto.
     + destruct IH as [[-> Hs]|[-> Hs]]; [left|right; auto]. split; auto.
       rewrite (x_av _ _ _ F) in Hs. simpl. lia.
 Qed.
